@@ -57,7 +57,7 @@ func cmdSeq(args []string) {
 	st := stats{Driver: "seq:" + *prof, Seed: *seed, ByEvent: map[string]int{}}
 	var w *World
 	for i := 0; i < *n; i++ {
-		u := NewUniverse(rng, *nkeys, *big && i%4 == 0)
+		u := NewUniverse(rng, *nkeys, *big && i%2 == 0)
 		mask := *cb
 		if mask < 0 {
 			mask = []int{0, cbAll, cbAddRef | cbDecRef | cbAlloc, cbValLength | cbValWrite | cbValRead, cbKeyCompare, rng.Intn(cbAll + 1)}[i%6]
